@@ -35,7 +35,7 @@ def plan(tier, seed):
     if tier == 'quick':
         cfgs = gen.pqr_all(1, 4) + rng.sample(gen.sig_orderings(3, 3), 5) + rng.sample(gen.pqr_all(5, 5), 3) + rng.sample(gen.pqr_all(6, 6), 2)
         cfgs += [gen.random_custom_cfg(rng, 3) for _ in range(3)] + gen.NAMED[:2] + [{'p': 2, 'q': 0, 'r': 0, 'opts': {'symcls': 'sympy'}}]
-        per = 6
+        per = 16
     else:
         cfgs = gen.sig_orderings(1, 4) + gen.pqr_all(5, 5) + rng.sample(gen.pqr_all(6, 6), 8)
         cfgs += [gen.random_custom_cfg(rng, rng.choice((2, 3, 4))) for _ in range(30)] + gen.NAMED
